@@ -7,6 +7,7 @@ import (
 	"time"
 
 	"github.com/named-data/ndnd/dv/config"
+	"github.com/named-data/ndnd/dv/table"
 	enc "github.com/named-data/ndnd/std/encoding"
 	"github.com/named-data/ndnd/std/ndn"
 	mgmt "github.com/named-data/ndnd/std/ndn/mgmt_2022"
@@ -154,14 +155,71 @@ func (s *Sim) PfxFetchStep(i, d int, fail bool) bool {
 // ---------------------------------------------------------------------------------------------
 // C19 oracles
 
+// hopChoice is one legal (best, second-best) pair of next hops of a RIB entry.
+type hopChoice struct {
+	nh   [2]uint64
+	cost [2]uint64 // cost[1] == infinity: no finite second-best hop
+}
+
+// legalHops derives, from the per-neighbour costs of a RIB entry ALONE (not from the entry's stored
+// nextHop/lowest fields), every pair the property allows: the best next hop is a neighbour with the
+// lowest finite cost, the second-best a different neighbour with the lowest remaining finite cost.
+// Where costs tie the property leaves the choice open, so every tied neighbour is legal.
+func legalHops(e table.VerifRibEntry) []hopChoice {
+	type nc struct{ h, c uint64 }
+	var fin []nc
+	for h, c := range e.Costs {
+		if c < config.CostInfinity {
+			fin = append(fin, nc{h, c})
+		}
+	}
+	if len(fin) == 0 {
+		return nil
+	}
+	sort.Slice(fin, func(a, b int) bool {
+		if fin[a].c != fin[b].c {
+			return fin[a].c < fin[b].c
+		}
+		return fin[a].h < fin[b].h
+	})
+	c1 := fin[0].c
+	var s1, rest []nc
+	for _, x := range fin {
+		if x.c == c1 {
+			s1 = append(s1, x)
+		} else {
+			rest = append(rest, x)
+		}
+	}
+	var out []hopChoice
+	if len(s1) >= 2 {
+		for a := 0; a < len(s1); a++ {
+			for b := a + 1; b < len(s1); b++ {
+				out = append(out, hopChoice{[2]uint64{s1[a].h, s1[b].h}, [2]uint64{c1, c1}})
+			}
+		}
+		return out
+	}
+	if len(rest) == 0 {
+		return []hopChoice{{[2]uint64{s1[0].h, 0}, [2]uint64{c1, config.CostInfinity}}}
+	}
+	for _, x := range rest {
+		if x.c == rest[0].c {
+			out = append(out, hopChoice{[2]uint64{s1[0].h, x.h}, [2]uint64{c1, x.c}})
+		}
+	}
+	return out
+}
+
 // DesiredRoutes is the from-scratch computation the property describes, from router i's CURRENT
-// tables: for every reachable remote router d, for d's own routing prefix and every prefix d is
-// currently known to announce, the faces of d's best and finite second-best next hops, each face at
-// the lowest such cost. unknown lists (name,face=0) pairs the tables cannot resolve to a face
-// (next hop without a neighbour entry): the property does not speak about those.
-func (sn *Snap) DesiredRoutes(i int) (want map[RouteKey]uint64) {
+// tables: for every reachable remote router d (a finite per-neighbour cost exists), for d's own
+// routing prefix and every prefix d is currently known to announce, the faces of d's best and
+// finite second-best next hops, each face at the lowest such cost. It returns every table that
+// results from a legal choice among tied next hops (capped; the first one follows the entry's stored
+// next hops when those are legal). Next hops without a neighbour entry / face are left out: the
+// property does not speak about those.
+func (sn *Snap) DesiredRoutes(i int) []map[RouteKey]uint64 {
 	s := sn.s
-	want = map[RouteKey]uint64{}
 	n := s.Nodes[i]
 	face := map[uint64]uint64{}
 	for _, v := range sn.nb[i] {
@@ -172,30 +230,70 @@ func (sn *Snap) DesiredRoutes(i int) (want map[RouteKey]uint64) {
 	for _, r := range routers {
 		pfx[r.Name.Hash()] = r.Prefixes
 	}
+	type dest struct {
+		names   []string
+		choices []hopChoice
+	}
+	var dests []dest
+	combos := 1
 	for _, e := range sn.rib[i] {
-		if s.IdxH(e.NameH) == i || e.Lowest1 >= config.CostInfinity {
+		if s.IdxH(e.NameH) == i {
 			continue
 		}
-		names := append([]string{append(e.Name.Clone(), dvSuffix).String()}, pfx[e.NameH]...)
-		add := func(nh, cost uint64) {
-			if cost >= config.CostInfinity {
-				return
+		ch := legalHops(e)
+		if len(ch) == 0 {
+			continue
+		}
+		// the stored pair first, if legal
+		for k, c := range ch {
+			if (c.nh[0] == e.NextHop1 && (c.nh[1] == e.NextHop2 || c.cost[1] >= config.CostInfinity)) || (c.nh[0] == e.NextHop2 && c.nh[1] == e.NextHop1) {
+				ch[0], ch[k] = ch[k], ch[0]
+				break
 			}
-			f, ok := face[nh]
-			if !ok || f == 0 {
-				return
-			}
-			for _, nm := range names {
-				k := RouteKey{nm, f}
-				if old, ok := want[k]; !ok || cost < old {
-					want[k] = cost
+		}
+		if combos*len(ch) > 256 {
+			ch = ch[:1]
+		}
+		combos *= len(ch)
+		dests = append(dests, dest{append([]string{append(e.Name.Clone(), dvSuffix).String()}, pfx[e.NameH]...), ch})
+	}
+	var out []map[RouteKey]uint64
+	idx := make([]int, len(dests))
+	for {
+		want := map[RouteKey]uint64{}
+		for di, d := range dests {
+			c := d.choices[idx[di]]
+			for k := 0; k < 2; k++ {
+				if c.cost[k] >= config.CostInfinity {
+					continue
+				}
+				f, ok := face[c.nh[k]]
+				if !ok || f == 0 {
+					continue
+				}
+				for _, nm := range d.names {
+					key := RouteKey{nm, f}
+					if old, ok := want[key]; !ok || c.cost[k] < old {
+						want[key] = c.cost[k]
+					}
 				}
 			}
 		}
-		add(e.NextHop1, e.Lowest1)
-		add(e.NextHop2, e.Lowest2)
+		out = append(out, want)
+		// odometer
+		di := len(dests) - 1
+		for ; di >= 0; di-- {
+			idx[di]++
+			if idx[di] < len(dests[di].choices) {
+				break
+			}
+			idx[di] = 0
+		}
+		if di < 0 {
+			break
+		}
 	}
-	return want
+	return out
 }
 
 // DVName reports whether a route name belongs to the class the property speaks about: a remote
@@ -233,16 +331,24 @@ func (sn *Snap) CheckMirror() []Finding {
 		for _, p := range n.CmdProblems {
 			out = append(out, Finding{"C19.cmd", "malformed management command", fmt.Sprintf("r%d: %s", i, p)})
 		}
-		want := sn.DesiredRoutes(i)
 		have := map[RouteKey]uint64{}
 		for k, c := range n.Routes {
 			if s.DVName(k.Name) {
 				have[k] = c
 			}
 		}
-		if routeStr(want) == routeStr(have) {
+		wants := sn.DesiredRoutes(i)
+		hs, ok := routeStr(have), false
+		for _, w := range wants {
+			if routeStr(w) == hs {
+				ok = true
+				break
+			}
+		}
+		if ok {
 			continue
 		}
+		want := wants[0] // report against the choice the RIB entry itself stores
 		for k, c := range want {
 			hc, ok := have[k]
 			switch {
